@@ -316,7 +316,6 @@ Lemma copy_node_eq dir name st0 ct kids pinc pexc S fs :
     let re := sel_exc pmatch c p pexc in
     let include := fst ri && negb (fst re) in
     let it := {| l_st := st; l_ct := ct; l_sel := true |} in
-    if enotdir S fs then (fs, S, [], Some ENotDir) else
     match (if include then create_parents S fs else (fs, S, [], None)) with
     | (fs1, S1, em1, Some e) => (fs1, S1, em1, Some e)
     | (fs1, S1, em1, None) =>
@@ -345,7 +344,7 @@ Lemma copy_node_eq dir name st0 ct kids pinc pexc S fs :
         end
     end.
 Proof.
-  cbn [copy_node]. cbv zeta. destruct (enotdir S fs); auto.
+  cbn [copy_node]. cbv zeta.
   destruct (if fst (sel_inc pmatch c (child_path dir name) pinc) && negb (fst (sel_exc pmatch c (child_path dir name) pexc))
             then create_parents S fs else (fs, S, [], None)) as [[[fs1 S1] em1] [e|]]; auto.
   destruct (st_is_dir st0); auto.
@@ -464,7 +463,7 @@ Proof.
   induction n as [name st0 ct kids IHk] using node_ind2.
   intros Hwf dir pinc pexc S fs fs' S' em Hinfo HS H.
   apply wf_tree_node_inv in Hwf. destruct Hwf as (Hne & Hns & Hdk & _ & Hkids).
-  rewrite copy_node_eq in H. cbv zeta in H. destruct (enotdir S fs); [discriminate|].
+  rewrite copy_node_eq in H. cbv zeta in H.
   rewrite (include_V dir pinc pexc name Hinfo Hne Hns) in H.
   pose proof (info_ok_child dir pinc pexc name Hinfo Hne Hns) as Hic.
   cbn [has_sel ref_items]. cbv zeta.
